@@ -12,6 +12,7 @@ import (
 	"context"
 	"encoding/json"
 	"fmt"
+	"math"
 	"math/rand/v2"
 	"net/http/httptest"
 	"os"
@@ -572,6 +573,45 @@ func TestEmit(t *testing.T) {
 			}
 			vc.PeerClose()
 			rs.Wait()
+			// values that cannot be encoded as they stand, through every path that emits something: whatever the library
+			// then does (an error to the caller, an error response to the peer), nothing that is not a whole JSON-RPC
+			// message reaches a channel
+			for _, bad := range []any{json.RawMessage(`{"partial":`), json.RawMessage(`nonsense`), json.RawMessage("{}\n{}"), json.RawMessage(` `), make(chan int), math.NaN(),
+				map[string]any{"a": json.RawMessage(`[1,`)}} {
+				cell := fmt.Sprintf("unencodable %T %v", bad, bad)
+				octx, ocancel := context.WithTimeout(bg, 5*time.Second)
+				ct.take()
+				st.take()
+				// handler result, pushed parameters, callback result
+				for _, m := range []string{"response", "pushnotify", "callback"} {
+					mode, hval, cbval = m, bad, bad
+					if m == "callback" {
+						hval = []int{1}
+					}
+					cli.Call(octx, "m", []int{1})
+					res.Evaluations++
+				}
+				// client parameters
+				mode = ""
+				cli.Call(octx, "m", bad)
+				cli.Notify(octx, "m", bad)
+				cli.Batch(octx, []jrpc2.Spec{{Method: "m", Params: []int{1}}, {Method: "m", Params: bad}})
+				res.Evaluations += 3
+				ocancel()
+				synctest.Wait()
+				for _, rec := range append(ct.take(), st.take()...) {
+					if _, ok := wholeMessage(rec); !ok {
+						res.add(cell, rec, "a record that is not a whole JSON-RPC message was handed to a channel")
+					}
+				}
+				// the connection still works
+				mode, hval = "response", "fine"
+				if _, err := cli.Call(bg, "m", nil); err != nil {
+					res.add(cell, nil, "connection unusable afterwards: "+err.Error())
+				}
+				ct.take()
+				st.take()
+			}
 			// bridge replies echo every id class too: the handler's result, a method-not-found error, and the error
 			// objects the bridge writes itself for statically invalid members (three kinds)
 			for _, id := range []string{"7", "-3", "1e3", "1.5", `"a"`, `""`, `"q\"\\"`, `"é😀"`, "123456789012345678901234567890", `"\u2028"`, "0", `" "`,
